@@ -12,6 +12,7 @@
 import GraphiqModel.Proofs.DMSem
 import GraphiqModel.Proofs.C17Bridge
 import GraphiqModel.Proofs.C17BridgeUhlmann
+import GraphiqModel.Proofs.C17BridgeStab
 namespace Graphiq.C17
 open Graphiq Graphiq.DM
 
@@ -218,6 +219,24 @@ theorem stabilizer_fidelity_is_squared_inner_product (a b : Tab) (ha : a.isSympl
       (∀ x y, Hilbert.tabRho a.n a x y = ψa x * star (ψa y)) ∧ (∀ x y, Hilbert.tabRho a.n b x y = ψb x * star (ψb y)) ∧
       ((stabOverlap a b : Rat) : ℂ) = (∑ x, star (ψa x) * ψb x) * star (∑ x, star (ψa x) * ψb x) :=
   C17B.stabOverlap_inner a b ((Tab.isSymplectic_iff a).1 ha) ((Tab.isSymplectic_iff b).1 hb) hn
+
+open scoped MatrixOrder ComplexOrder in
+/-- **The pure-state shortcut of `fidelity` is the Uhlmann fidelity** (any dimension): for a unit vector `ψ` and a
+    positive semidefinite `σ`, the value `tr(ρσ)` that the code returns when one argument is pure equals
+    `(tr √(√ρ σ √ρ))²` — with the pure state `ρ = |ψ⟩⟨ψ|` in either argument position (`√` = Mathlib's `CFC.sqrt`). -/
+theorem pure_state_shortcut_is_uhlmann {ι : Type} [Fintype ι] [DecidableEq ι] (ψ : ι → ℂ)
+    (hψ : dotProduct (star ψ) ψ = 1) (σ : Matrix ι ι ℂ) (hσ : σ.PosSemidef) :
+    C17B.uhlmann (C17B.ketBra ψ) σ = Matrix.trace (C17B.ketBra ψ * σ) ∧
+    C17B.uhlmann σ (C17B.ketBra ψ) = Matrix.trace (σ * C17B.ketBra ψ) :=
+  ⟨C17B.uhlmann_pure_left ψ hψ σ hσ, C17B.uhlmann_pure_right ψ σ hσ⟩
+
+/-- **The fidelity both backends report for two stabilizer states is their Uhlmann fidelity** (every n, valid tableaux of
+    equal size): `(tr √(√ρ_a ρ_b √ρ_a))² = stabOverlap a b`, where `ρ = Hilbert.tabRho` is the complex matrix the exact
+    `stabilizerDensity` represents. -/
+theorem stabilizer_fidelity_is_uhlmann (a b : Tab) (ha : a.isSymplectic = true) (hb : b.isSymplectic = true)
+    (hn : a.n = b.n) :
+    C17B.uhlmann (Hilbert.tabRho a.n a) (Hilbert.tabRho a.n b) = ((stabOverlap a b : Rat) : ℂ) :=
+  C17B.uhlmann_stabilizer a b ((Tab.isSymplectic_iff a).1 ha) ((Tab.isSymplectic_iff b).1 hb) hn
 
 /-- **`Infidelity` agrees across representations** (every n, all valid tableaux of equal size): it returns the same value
     whether target and state are held as tableaux or both as matrices — unconditionally — and also with the target as a
